@@ -126,6 +126,22 @@ package node
 //@   ensures[kept-on-failure] ret0 != nil ==> __eq(c.transactionPool, old(c.transactionPool)) && __eq(c.internalTransactionPool, old(c.internalTransactionPool))
 //@   call signAndInsertSelfEvent assert[pools-intact] __eq(c.transactionPool, old(c.transactionPool)) && __eq(c.internalTransactionPool, old(c.internalTransactionPool))
 
+// recordHeads / sync (C05): the pools change only inside addSelfEvent (whose contract says when and how); a sync
+// that fails before recording heads, or that is truncated, leaves them exactly as they were.
+//@ func (c *core) recordHeads() error
+//@   requires c != nil && c.hg != nil && c.validator != nil && c.validator.Key != nil && c.selfBlockSignatures != nil && c.hg.ConsensusReady()
+//@   ensures[ready]      c.hg == old(c.hg) && c.hg.ConsensusReady()
+//@   ensures[pools-kept] !__called("addSelfEvent") ==> __eq(c.transactionPool, old(c.transactionPool)) && __eq(c.internalTransactionPool, old(c.internalTransactionPool))
+//@   loop 1 invariant[ready] c.hg == old(c.hg) && c.hg.ConsensusReady() && c.validator == old(c.validator) && c.selfBlockSignatures == old(c.selfBlockSignatures)
+//@   loop 1 invariant[pools-kept] !__called("addSelfEvent") ==> __eq(c.transactionPool, old(c.transactionPool)) && __eq(c.internalTransactionPool, old(c.internalTransactionPool))
+
+//@ func (c *core) sync(fromID uint32, unknownEvents []hg.WireEvent) error
+//@   requires c != nil && c.hg != nil && c.validator != nil && c.validator.Key != nil && c.selfBlockSignatures != nil && c.hg.ConsensusReady() && c.heads != nil
+//@   ensures[ready]      c.hg == old(c.hg) && c.hg.ConsensusReady()
+//@   ensures[pools-kept] !__called("recordHeads") ==> __eq(c.transactionPool, old(c.transactionPool)) && __eq(c.internalTransactionPool, old(c.internalTransactionPool))
+//@   loop 1 invariant[ready] c.hg == old(c.hg) && c.hg.ConsensusReady() && c.validator == old(c.validator) && c.selfBlockSignatures == old(c.selfBlockSignatures) && c.heads != nil
+//@   loop 1 invariant[pools-kept] __eq(c.transactionPool, old(c.transactionPool)) && __eq(c.internalTransactionPool, old(c.internalTransactionPool))
+
 // ------------------------------------------------------------------------------------------------
 // RPC gate and suspension (C17), handlers (C08)
 
